@@ -11,7 +11,7 @@ use std::future::Future;
 use std::io::{self, IoSlice, Read, Seek, SeekFrom, Write};
 use std::path::{Path, PathBuf};
 use std::pin::Pin;
-use std::sync::Arc;
+use std::sync::{Arc, Mutex, Weak};
 use std::task::{Context, Poll};
 use tokio::io::{AsyncRead, AsyncSeek, AsyncWrite, ReadBuf};
 
@@ -35,6 +35,62 @@ fn is_dead() -> bool {
     runtime().map(|rt| rt.is_dead()).unwrap_or(false)
 }
 
+/// A write that has been handed over (the `write` call has returned `Ok`) and not been performed yet - what
+/// tokio's `File` does with every write: it copies the bytes and lets a blocking-pool task do the system
+/// call, so the caller goes on before the bytes are in the file. Only in runs where the simulator asks for
+/// it (`SimRuntime::fs_defer_writes`); the write lands when the simulator schedules its completion task,
+/// or when the next operation on the same handle (or a flush) forces it.
+#[derive(Debug)]
+struct PendingWrite {
+    std: Arc<std::fs::File>,
+    path: PathBuf,
+    append: bool,
+    data: Option<Vec<u8>>,
+}
+
+type PendingCell = Arc<Mutex<PendingWrite>>;
+
+thread_local! {
+    static PENDING: std::cell::RefCell<Vec<Weak<Mutex<PendingWrite>>>> = const { std::cell::RefCell::new(Vec::new()) };
+}
+
+fn land(cell: &PendingCell) {
+    let mut pending = cell.lock().unwrap();
+    let Some(data) = pending.data.take() else { return };
+    if is_dead() {
+        return;
+    }
+    let mut file = &*pending.std;
+    let offset = if pending.append {
+        file.metadata().map(|m| m.len()).unwrap_or(0)
+    } else {
+        file.stream_position().unwrap_or(0)
+    };
+    if file.write_all(&data).is_ok() {
+        event(FsEvent::Write {
+            path: pending.path.clone(),
+            offset,
+            data,
+        });
+    }
+}
+
+/// Performs every handed-over write (a process that exits normally: tokio runs them to completion).
+pub fn land_all_pending_writes() {
+    let cells: Vec<PendingCell> = PENDING.with(|p| p.borrow_mut().drain(..).filter_map(|w| w.upgrade()).collect());
+    for cell in cells {
+        land(&cell);
+    }
+}
+
+/// Forgets every handed-over write (a process that is killed: they never reach the file).
+pub fn drop_all_pending_writes() {
+    let cells: Vec<PendingCell> = PENDING.with(|p| p.borrow_mut().drain(..).filter_map(|w| w.upgrade()).collect());
+    for cell in cells {
+        cell.lock().unwrap().data = None;
+    }
+}
+
 async fn enter(site: &'static str, op: FsOp, path: &Path, len: usize) -> io::Result<FsFault> {
     super::yield_point(site).await;
     if is_dead() {
@@ -53,6 +109,7 @@ pub struct File {
     append: bool,
     yielded: bool,
     seek_result: Option<io::Result<u64>>,
+    pending: Option<PendingCell>,
 }
 
 impl File {
@@ -63,6 +120,14 @@ impl File {
             append,
             yielded: false,
             seek_result: None,
+            pending: None,
+        }
+    }
+
+    /// The operation in flight on this handle completes before the next one starts.
+    fn complete_pending(&self) {
+        if let Some(cell) = &self.pending {
+            land(cell);
         }
     }
 
@@ -85,6 +150,7 @@ impl File {
 
     pub async fn sync_all(&self) -> io::Result<()> {
         enter("fs.sync", FsOp::Sync, &self.path, 0).await?;
+        self.complete_pending();
         self.std.sync_all()?;
         event(FsEvent::Sync {
             path: self.path.clone(),
@@ -98,6 +164,7 @@ impl File {
 
     pub async fn set_len(&self, size: u64) -> io::Result<()> {
         enter("fs.set_len", FsOp::SetLen, &self.path, 0).await?;
+        self.complete_pending();
         self.std.set_len(size)?;
         event(FsEvent::SetLen {
             path: self.path.clone(),
@@ -108,24 +175,25 @@ impl File {
 
     pub async fn metadata(&self) -> io::Result<Metadata> {
         enter("fs.metadata", FsOp::Metadata, &self.path, 0).await?;
+        self.complete_pending();
         self.std.metadata()
     }
 
     pub async fn try_clone(&self) -> io::Result<File> {
+        self.complete_pending();
         Ok(File {
             std: Arc::new(self.std.try_clone()?),
             path: self.path.clone(),
             append: self.append,
             yielded: false,
             seek_result: None,
+            pending: None,
         })
     }
 
     pub async fn into_std(self) -> std::fs::File {
-        match Arc::try_unwrap(self.std) {
-            Ok(file) => file,
-            Err(shared) => shared.try_clone().expect("cannot clone file handle"),
-        }
+        self.complete_pending();
+        self.std.try_clone().expect("cannot clone file handle")
     }
 
     pub async fn set_permissions(&self, perm: Permissions) -> io::Result<()> {
@@ -161,6 +229,34 @@ impl File {
             FsFault::TornThenError(n, kind) => {
                 len = len.min(n);
                 error_after = Some(kind);
+            }
+        }
+        // the previous write of this handle completes first
+        self.complete_pending();
+        if len > 0 && error_after.is_none() {
+            if let Some(rt) = runtime() {
+                if rt.fs_defer_writes(&self.path) {
+                    let cell: PendingCell = Arc::new(Mutex::new(PendingWrite {
+                        std: self.std.clone(),
+                        path: self.path.clone(),
+                        append: self.append,
+                        data: Some(data[..len].to_vec()),
+                    }));
+                    PENDING.with(|p| {
+                        let mut list = p.borrow_mut();
+                        list.retain(|w| w.strong_count() > 0);
+                        list.push(Arc::downgrade(&cell));
+                    });
+                    self.pending = Some(cell.clone());
+                    rt.spawn(
+                        "fs-write-completion",
+                        Box::pin(async move {
+                            super::yield_point("fs.write_completion").await;
+                            land(&cell);
+                        }),
+                    );
+                    return Ok(len);
+                }
             }
         }
         let mut file = &*self.std;
@@ -221,10 +317,12 @@ impl AsyncWrite for File {
     }
 
     fn poll_flush(self: Pin<&mut Self>, _cx: &mut Context<'_>) -> Poll<io::Result<()>> {
+        self.complete_pending();
         Poll::Ready(Ok(()))
     }
 
     fn poll_shutdown(self: Pin<&mut Self>, _cx: &mut Context<'_>) -> Poll<io::Result<()>> {
+        self.complete_pending();
         Poll::Ready(Ok(()))
     }
 }
@@ -241,6 +339,7 @@ impl AsyncRead for File {
         if let FsFault::Error(kind) = fault(FsOp::Read, &self.path, buf.remaining()) {
             return Poll::Ready(Err(io::Error::new(kind, "injected fault")));
         }
+        self.complete_pending();
         let mut file = &*self.std;
         let unfilled = buf.initialize_unfilled();
         let limit = unfilled.len().min(MAX_WRITE);
@@ -256,6 +355,7 @@ impl AsyncRead for File {
 
 impl AsyncSeek for File {
     fn start_seek(mut self: Pin<&mut Self>, position: SeekFrom) -> io::Result<()> {
+        self.complete_pending();
         let mut file = &*self.std;
         let result = file.seek(position);
         self.seek_result = Some(result);
@@ -510,4 +610,15 @@ pub async fn copy(from: impl AsRef<Path>, to: impl AsRef<Path>) -> io::Result<u6
     let data = read(from).await?;
     write(to, &data).await?;
     Ok(data.len() as u64)
+}
+
+impl Drop for File {
+    fn drop(&mut self) {
+        // tokio: the blocking task that performs the write owns the bytes, dropping the handle does not
+        // cancel it. Landing it here keeps "drop, then open and read" sequential, as it is with tokio,
+        // where the runtime's blocking pool is FIFO per file only through the handle - a reader that opens
+        // the file by path right after the drop may or may not see the bytes; the simulator explores the
+        // window only while the handle is alive.
+        self.complete_pending();
+    }
 }
